@@ -754,6 +754,17 @@ func (g *TreeGen) wildItem(depth int) SItem {
 		return &Grp{Api: api, Args: g.wildArgs(grpFixed[api], depth-1)}
 	case 10:
 		c := &Custom{Open: pick(r, []string{"", "(", "[", "<", "{"}), Close: pick(r, []string{"", ")", "]", ">", "}"}), Sep: pick(r, []string{"", ",", ";", "|", " "}), Multi: r.Bool(), Args: g.wildArgs(g.arity(), depth-1)}
+		if r.Chance(20) {
+			// the ZERO Options value: items written back to back (nothing between them, no
+			// delimiters), with neighbours that read differently when a space is put between them
+			c.Open, c.Close, c.Sep, c.Multi = "", "", "", false
+			if r.Bool() {
+				c.Args = []Arg{st(id("x")), st(op("<")), st(op("-")), st(id("ch"))}
+				if r.Bool() {
+					c.Args = []Arg{st(id("a")), st(id("b")), st(mkLit(1))}
+				}
+			}
+		}
 		if r.Chance(25) {
 			items := make([]FuncItem, len(c.Args))
 			for i, a := range c.Args {
